@@ -313,7 +313,8 @@ func (w *verifC19) opAdd(faults bool) {
 			w.fault("add-signed-by-unknown-key")
 		case 9, 19, 29:
 			how = "foreign-signature"
-		case 7:
+		}
+		if how == "genuine" && c.Chance("stray-new-line", 1, 120) {
 			how = "empty-line-before-signature-via-stream"
 		}
 	}
@@ -369,7 +370,11 @@ func (w *verifC19) add(label string, a asserts.Assertion, good bool) {
 	c.Logf("add %s (current %d) -> mem:%s fs:%s", label, cur, verifErrClass(errs[0]), verifErrClass(errs[1]))
 	w.adds++
 	if (errs[0] == nil) != (errs[1] == nil) {
-		w.violate("stores-disagree", "Add(%s): memory store says %v, filesystem store says %v", label, errs[0], errs[1])
+		class := "stores-disagree"
+		if errs[1] != nil && (len(w.dots) > 0 || verifHasDotPK(a.Ref().PrimaryKey)) {
+			class = verifC19DotClass
+		}
+		w.violate(class, "Add(%s): memory store says %s, filesystem store says %s%s", label, verifErrClass(errs[0]), verifErrClass(errs[1]), w.dotNote())
 		return
 	}
 	accepted := errs[0] == nil
@@ -402,7 +407,7 @@ func (w *verifC19) add(label string, a asserts.Assertion, good bool) {
 		}
 	default:
 		if !accepted {
-			w.violate("higher-revision-refused", "Add(%s) refused although the stored revision is %d: mem %v, fs %v", label, cur, errs[0], errs[1])
+			w.violate(w.fsClass("fs", "higher-revision-refused"), "Add(%s) refused although the stored revision is %d: mem %s, fs %s%s", label, cur, verifErrClass(errs[0]), verifErrClass(errs[1]), w.dotNote())
 			return
 		}
 		if m == nil {
